@@ -66,6 +66,9 @@ public:
              )
     {
         // Fire exception in case of error.
+        // A reader passed by value shares the decompress object with its original:
+        // the error handler has to jump to the mark of the reader making the call.
+        this->get()->client_data = static_cast< backend_t* >( this );
         if( setjmp( this->_mark )) { this->raise_error(); }
 
         // read data
@@ -76,6 +79,7 @@ public:
     void skip( byte_t* dst, int )
     {
         // Fire exception in case of error.
+        this->get()->client_data = static_cast< backend_t* >( this );
         if( setjmp( this->_mark )) { this->raise_error(); }
 
         // read data
@@ -89,6 +93,11 @@ private:
 
     void initialize()
     {
+        // Fire exception in case of error. The mark left by the backend's
+        // constructor belongs to a frame that has returned.
+        this->get()->client_data = static_cast< backend_t* >( this );
+        if( setjmp( this->_mark )) { this->raise_error(); }
+
         this->get()->dct_method = this->_settings._dct_method;
 
         io_error_if( jpeg_start_decompress( this->get() ) == false
